@@ -150,6 +150,8 @@ From NV Require Import Scalar.Ops Model.Common Model.Basis Model.Knots Model.Kno
   Proofs.GenTieLib Proofs.GenTieKnots Proofs.GenTieSpan Proofs.GenTieBasis Proofs.GenTieBasisOne
   Proofs.GenTieDersOne Proofs.GenTieDersLib Proofs.GenTieDers Proofs.GenTieKnotIns.
 Local Open Scope nat_scope.
+From NV Require Import Gen.PreludeExt Gen.LinalgMat Proofs.GenTieMat Proofs.GenTieMatSolve Proofs.GenTieBinom.
+From NV Require Import Gen.PreludeExt Gen.HelpersB Proofs.GenTieKnotRemove.
 
 (* [G] helpers.degree_reduction (as repaired), check_num = True, control points = lists of coordinates: ALL inputs;
    GeomdlException <-> Rejected.  The source uses float(i) (unary), the model ofnatb (binary): equal under nat_laws K
